@@ -35,6 +35,8 @@ type c02Case struct {
 	// SmallRecover > 0: every image is first recovered, on a copy, by a start-up recovery whose own page cache
 	// holds only that many pages (hook VerifInitCacheSize) - the recovery of a database much larger than the cache
 	SmallRecover int `json:"small_recover,omitempty"`
+	// Age > 0: the database starts with the row-id and LSN counters of a database long in use (props.Ages)
+	Age int `json:"age,omitempty"`
 }
 
 // c02Deep builds the start of a "deep tree" case: one table loaded with enough
@@ -107,6 +109,7 @@ func c02Gen(rt *rapid.T) c02Case {
 	burst := nseg >= 2 && rapid.IntRange(0, 2).Draw(rt, "ddlburst") == 0
 	var c c02Case
 	c.ImageEvery = 1
+	c.Age = DrawAge(rt)
 	if rapid.IntRange(0, 2).Draw(rt, "smallrecover") == 0 {
 		c.SmallRecover = rapid.SampledFrom([]int{8, 12, 16, 24, 48, 96}).Draw(rt, "recovercache")
 	}
@@ -287,6 +290,9 @@ func c02Run(c c02Case, st *vlib.Stats) string {
 			eng.Crash(true)
 		}
 	}()
+	if err := AgeDatabase(eng, c.Age); err != nil {
+		return "advancing the counters failed: " + err.Error()
+	}
 	m := model.NewDB()
 	tr := NewIDTracker()
 	var labels []string
